@@ -11,6 +11,13 @@ def EnlargeSpec : Prop :=
     ResizeOK s (s.enlargeValue (s.records.get k) n).1 k n ∧
     (s.enlargeValue (s.records.get k) n).2 = (s.enlargeValue (s.records.get k) n).1.records.get k
 
+/-- `move_to_end` on a live slot that is not the last block of the file -/
+def MoveToEndSpec : Prop :=
+  ∀ (s : Storage) (k n : Nat), SInv s → s.records.live k →
+    s.data.length ≠ (s.records.get k).pos + 16 + (s.records.get k).size →
+    ResizeOK s (s.moveToEnd (s.records.get k) n).1 k n ∧
+    (s.moveToEnd (s.records.get k) n).2 = (s.moveToEnd (s.records.get k) n).1.records.get k
+
 /-- `shrink_value` on a live slot -/
 def ShrinkSpec : Prop :=
   ∀ (s : Storage) (k n : Nat), SInv s → s.records.live k → n < (s.records.get k).size →
